@@ -325,11 +325,15 @@ func TestVerifC18Stress(t *testing.T) {
 type c18FaultySigExists struct {
 	inner SigExistsIndex
 	fail  bool
+	claim bool // answers "present" for every signature (a stale or colliding sig-exists file): the epoch's job then fails later
 }
 
 func (f *c18FaultySigExists) Has(sig [64]byte) (bool, error) {
 	if f.fail {
 		return false, errors.New("sig-exists index: input/output error")
+	}
+	if f.claim {
+		return true, nil
 	}
 	return f.inner.Has(sig)
 }
@@ -400,15 +404,17 @@ func TestVerifC18Search(t *testing.T) {
 	k := 0
 	for _, conc := range []int{-1, 1, 2, 3} {
 		for hit := 0; hit < 4; hit++ { // 3 = a signature of no epoch
-			for faulty := 0; faulty < 8; faulty++ {
-				if hit < 3 && faulty&(1<<hit) != 0 {
+			for faulty := 0; faulty < 27; faulty++ {
+				// per epoch: 0 = the sig-exists index works, 1 = it fails, 2 = it claims every signature
+				mode := func(i int) int { return faulty / []int{1, 3, 9}[i] % 3 }
+				if hit < 3 && mode(hit) != 0 {
 					continue // the epoch holding the signature works
 				}
 				multi := NewMultiEpoch(&Options{EpochSearchConcurrency: conc})
 				outcome := make([]string, 3)
 				for i, l := range eps {
 					ep := *l.epoch
-					ep.sigExists = &c18FaultySigExists{inner: l.epoch.sigExists, fail: faulty&(1<<i) != 0}
+					ep.sigExists = &c18FaultySigExists{inner: l.epoch.sigExists, fail: mode(i) == 1, claim: mode(i) == 2}
 					multi.AddEpoch(ep.Epoch(), &ep)
 				}
 				// jobs are created newest epoch first: job j <-> epoch 4-j
@@ -453,6 +459,76 @@ func TestVerifC18Search(t *testing.T) {
 					}
 				}
 				out.Emit(o)
+			}
+		}
+	}
+	// searches around changes of the epoch set: a signature found while its epoch is loaded must not be "found" after the
+	// epoch was removed (by number, by config file, by replacement with an epoch object that does not hold it)
+	for ri, how := range []string{"RemoveEpoch", "RemoveEpochByConfigFilepath", "ReplaceOrAddEpoch"} {
+		for _, conc := range []int{1, 2} {
+			multi := NewMultiEpoch(&Options{EpochSearchConcurrency: conc})
+			for i, l := range eps {
+				ep := *l.epoch
+				cfg := *l.epoch.config
+				cfg.originalFilepath = fmt.Sprintf("/cfg/epoch-%d.yml", i+1)
+				ep.config = &cfg
+				ep.onClose = nil // (the copies share the index handles of the loaded epoch: removing a copy must not close them)
+				multi.AddEpoch(ep.Epoch(), &ep)
+			}
+			sig := eps[1].built.Blocks[0].Txs[0].Sig // held by epoch 2
+			search := func(caseNo int, n int, outcome []string, jobOf func(epoch uint64) int) bool {
+				o := c18Obs{Case: caseNo, Via: "findEpochNumberFromSignature/after-" + how, N: n, Limit: conc, Outcome: outcome, Order: []int{}, ErrJobs: []int{}, NotStarted: []int{}}
+				var got uint64
+				var err error
+				pch := make(chan string, 1)
+				go func() {
+					pch <- vt.Guard(func() { got, err = multi.findEpochNumberFromSignature(context.Background(), sig) })
+				}()
+				select {
+				case p := <-pch:
+					switch {
+					case p != "":
+						o.Kind, o.Detail = "panic", p
+					case err == nil:
+						o.Kind, o.Val = "ok", jobOf(got)
+						o.Detail = fmt.Sprintf("answered epoch %d", got)
+					default:
+						o.Kind, o.Detail = "errs", err.Error()
+						for j := 1; j <= n; j++ {
+							o.ErrJobs = append(o.ErrJobs, j)
+						}
+					}
+				case <-time.After(10 * time.Second):
+					o.Kind, o.Detail = "hang", "the search did not return within 10 s"
+				}
+				out.Emit(o)
+				return o.Kind != "hang"
+			}
+			// jobs newest first: epochs 3, 2, 1 <-> jobs 1, 2, 3
+			if !search(9100+10*ri+conc, 3, []string{"fail", "ok", "fail"}, func(e uint64) int { return 4 - int(e) }) {
+				return
+			}
+			switch how {
+			case "RemoveEpoch":
+				multi.RemoveEpoch(2)
+			case "RemoveEpochByConfigFilepath":
+				multi.RemoveEpochByConfigFilepath("/cfg/epoch-2.yml")
+			default:
+				// epoch number 2 now served by an object holding epoch 1's data (its indexes do not know the signature)
+				ep := *eps[0].epoch
+				ep.epoch = 2
+				ep.onClose = nil
+				multi.ReplaceOrAddEpoch(2, &ep)
+			}
+			if how == "ReplaceOrAddEpoch" {
+				if !search(9150+10*ri+conc, 3, []string{"fail", "fail", "fail"}, func(e uint64) int { return 4 - int(e) }) {
+					return
+				}
+			} else {
+				// two jobs left: epoch 3 <-> job 1, epoch 1 <-> job 2; an answer naming another epoch is no job's value (0)
+				if !search(9150+10*ri+conc, 2, []string{"fail", "fail"}, func(e uint64) int { return map[uint64]int{3: 1, 1: 2}[e] }) {
+					return
+				}
 			}
 		}
 	}
